@@ -7,6 +7,7 @@ from __future__ import annotations
 import contextlib
 import dataclasses
 import datetime
+from fractions import Fraction
 import enum
 import io
 import struct
@@ -1298,6 +1299,38 @@ def m_astuple(interp, fr, obj, **kw):
     return _astuple(interp, obj)
 
 
+def m_fromtimestamp(interp, fr, *args, **kw):
+    """datetime.datetime.fromtimestamp(t, tz) for tz = UTC (CPython _PyTime_ObjectToTimeval with ROUND_HALF_EVEN):
+    frac, whole = modf(t) exactly; us = round_half_even(fl(frac * 1e6)) with a carry into `whole`.  |frac| < 1, so the
+    one rounded multiplication errs by at most u * 1e6 < 2^-33: the instant is an integer number N of microseconds with
+    |N - t * 10^6| <= 1/2 + 2^-33 (over-approximation: every N the machine can return satisfies it)."""
+    from . import fpmodel
+    t, tz = (list(args) + [kw.get("tz")])[:2] if len(args) < 2 else args[:2]
+    if not isinstance(t, Sym):
+        if isinstance(tz, Sym):
+            raise Undecided("fromtimestamp with a symbolic tz")
+        try:
+            return datetime.datetime.fromtimestamp(t, tz)
+        except (OverflowError, ValueError, OSError) as ex:
+            raise PyRaise(type(ex))
+    if tz is not datetime.timezone.utc:
+        raise Undecided("fromtimestamp with a tz other than UTC is not modelled")
+    ctx = interp.ctx
+    r = fpmodel.real_of(t)
+    if r is None:
+        raise Undecided(f"fromtimestamp({t!r})")
+    n = z3.Int(ctx.fresh("instant_us"))
+    d = z3.ToReal(n) - r * 10 ** 6
+    slack = z3.RealVal(Fraction(1, 2) + Fraction(1, 2 ** 33))
+    ctx.assume(z3.And(d <= slack, -d <= slack))
+    if isinstance(t, (SInt, SBool)):
+        ctx.assume(n == zint(t) * 10 ** 6)
+    if not ctx.decide(z3.And(n >= opaque.DT_MIN_US, n <= opaque.DT_MAX_US)):
+        # year outside 1..9999: ValueError / OverflowError / OSError depending on the platform's time_t
+        raise PyRaise(ValueError, "year is out of range")
+    return SOpaque(n, "datetime")
+
+
 def m_assert_never(interp, fr, *args):
     # typing.assert_never: at run time it raises AssertionError whatever it is given
     raise PyRaise(AssertionError, "Expected code to be unreachable")
@@ -1329,6 +1362,7 @@ def base_models():
         round: m_round,
         uuid.UUID: m_uuid,
         datetime.timedelta: m_timedelta,
+        datetime.datetime.fromtimestamp: m_fromtimestamp,
         divmod: m_divmod,
         bytes: m_bytes,
         enumerate: m_enumerate,
